@@ -13,6 +13,8 @@ increase (effective = `r` attribute if present, else previous + 1).
 `value s c r` is the grid it denotes.
 -/
 import XlModel.Lemmas.Readers
+import XlModel.Lemmas.ReadersLoad
+import XlModel.ReadersState
 
 deriving instance DecidableEq for Except
 
@@ -59,6 +61,18 @@ theorem getters_covered : Facts.C04.getters =
      "GetRowVisible", "GetRows", "GetSheetDimension", "GetSheetIndex", "GetSheetList",
      "GetSheetMap", "GetSheetName", "GetSheetProps", "GetSheetView", "GetSheetVisible",
      "GetSlicers", "GetStyle", "GetTables", "GetWorkbookProps", "Rows", "SearchSheet"] := by
+  decide
+
+/-- clause "read-only calls are pure", syntactic side: among the bodies of all exported read
+functions of `*File` exactly one assigns to a field or element of an object that is not a
+fresh local (named result, `var`, composite literal, `make`, `new`): `GetConditionalStyle`
+writes the default pattern type into the shared `dxf` — open finding
+`purity:saved:GetConditionalStyle:dxf-pattern-type`, reproduced by the harness witness. Any
+other such write appearing in a getter body breaks this theorem. (Writes inside callees —
+`getValueFrom`, `prepareSheetXML`, `mergeOverlapCells` — are covered by their own facts and
+by the twin-run oracle.) -/
+theorem getter_shared_writes_pinned :
+    Facts.C04.getterSharedWrites = ["GetConditionalStyle:xf.Fill.PatternFill.PatternType"] := by
   decide
 
 /-! ## All read paths agree -/
@@ -167,6 +181,24 @@ theorem getCellStyle_obs (s : Sheet) (c r : Nat) :
     (∀ a b, getCellValue (getCellStyleState s c r) a b = getCellValue s a b) := by
   simp [getCellStyle_pure]
 
+/-- clause "read-only calls are pure", `GetCellValue`/`GetRows`/`GetCols`/`SearchSheet` on a
+numeric cell: the stored text after a formatted read is the stored text before it, whatever
+rendering `getValueFrom` computed (it used to be that rendering: `1.0000000000000002` → `1`). -/
+theorem getCellValue_keeps_stored (v norm : Val) : storedAfterFormattedRead v norm = v := by
+  simp [storedAfterFormattedRead, facts_pinned.2.2.2.2.2.1]
+
+/-- open finding `purity:obs:GetMergeCells:overlapping-merges`, on C03's merge list model:
+with the overlapping ranges D8:F10 and B7:D9 (both accepted by `MergeCell`), `GetCellValue(E7)`
+returns E7's own value; after `GetMergeCells` (which replaces the list by the single range
+B7:F10, in place) the same call is redirected to B7 and returns the empty string. -/
+theorem finding_getMergeCells_overlapping :
+    let s : Sheet := (List.range 7).map fun i =>
+      ⟨i + 1, false, if i = 6 then [⟨5, 7, ['v'], false, false⟩] else []⟩
+    let ms := [mrange 4 8 6 10, mrange 2 7 4 9]
+    getCellValueM s ms 5 7 = ['v'] ∧
+    getMergeCellsState ms = [mrange 2 7 6 10] ∧
+    getCellValueM s (getMergeCellsState ms) 5 7 = [] := by decide
+
 /-- regression witness of the repaired defect: with the old body (`prepareSheetXML`)
 row 5 of an empty sheet turns visible after reading the style of A10. -/
 theorem regression_getCellStyle_materialised :
@@ -187,12 +219,48 @@ theorem finding_rless_mixed :
   refine ⟨?_, by decide, by decide⟩
   simp [WF, rlessMixed, RowsAsc, ColsAsc, effRow, effCol]
 
-/-- `load_pure_partial`: on the witness shapes of the other classes (all references
+/-- clause "read-only calls … leave the result of every later read unchanged", for the state
+change every first getter performs: caching a worksheet opened from a file (`checkSheet`,
+`checkSheetR0`, `checkRow` as the code does them now, with the greatest-column sizing and
+the `TotalRows` bound). For **every** worksheet that satisfies the reader invariant, lies in
+the grid, whose present cell references name their row, and whose rows carry `r` (cells may
+or may not) — `load` succeeds (no error, no panic), the cached form satisfies the invariant
+and carries every reference, and every reader answers as before: `GetCellValue` returns the
+value the streaming readers showed, `GetRows` and `GetCols` agree cell by cell with their
+results before caching, and literal `SearchSheet` finds the same cells.
+Partial: the hypothesis `AllR s` (rows carry `r`) is explicit; for rows without `r` the
+statement is false in general (`finding_rless_mixed`) and open for the sub-class where
+unreferenced cells sit at their index (correspondence + `purity:*-after-load` oracle only). -/
+theorem load_pure_partial (s : Sheet) (h : WF s) (ha : AllR s) (hb : RowAttrsOK s)
+    (hc : Consistent 0 s) (hg : InGrid 0 s) :
+    ∃ s', load s = .ok s' ∧ WF s' ∧ Explicit s' ∧
+      (∀ c r, getCellValue s' c r = value s c r) ∧
+      (∀ c r, 1 ≤ c → 1 ≤ r → cellOf (getRows s') c r = cellOf (getRows s) c r) ∧
+      (∀ c r, 1 ≤ c → 1 ≤ r → cellOfCols (getCols s') c r = cellOfCols (getCols s) c r) ∧
+      (∀ needle, needle ≠ [] → ∃ l l', searchSheet s needle = .ok l ∧
+        searchSheet s' needle = .ok l' ∧ ∀ c r, (c, r) ∈ l' ↔ (c, r) ∈ l) := by
+  obtain ⟨s', hl, hwf, hex, hv⟩ := load_allR s h ha hb hc hg
+  have hb' := rowAttrsOK_of_explicit s' hex
+  have hc' := consistent_of_explicit s' 0 hex
+  have hg' := inGrid_of_explicit s' 0 hex
+  refine ⟨s', hl, hwf, hex, fun c r => ?_, fun c r h1 h2 => ?_, fun c r h1 h2 => ?_,
+    fun needle hne => ?_⟩
+  · rw [getCellValue_agrees s' hwf hex c r, hv]
+  · rw [readers_agree s' hwf hb' c r h1 h2, readers_agree s h hb c r h1 h2, hv]
+  · rw [getCols_agrees s' hwf hc' c r h1 h2, getCols_agrees s h hc c r h1 h2, hv]
+  · refine ⟨hits needle 0 s, hits needle 0 s', searchSheet_spec s h hg needle,
+      searchSheet_spec s' hwf hg' needle, fun c r => ?_⟩
+    rw [mem_hits_iff needle hne s' 0 c r hwf, mem_hits_iff needle hne s 0 c r h]
+    have := hv c r
+    unfold value at this
+    rw [this]
+
+/-- `load_pure_examples`: on the witness shapes of the other classes (all references
 present with gaps; no references at all) caching leaves `GetRows` unchanged. The
 general statement (for every `WF` sheet whose rows without `r` keep unreferenced cells
 at their index) is not proved here; it is carried by the correspondence
 (`dump`/`rows` after `get`) and the `purity:*-after-load` oracle. -/
-theorem load_pure_partial :
+theorem load_pure_examples :
     (let s : Sheet := [⟨2, false, [⟨2, 2, ['a'], false, false⟩, ⟨5, 2, [], false, true⟩]⟩,
                        ⟨4, true, [⟨1, 4, [], true, false⟩]⟩]
      afterLoad s (fun s' => getRows s' == getRows s && getCols s' == getCols s) = true) ∧
@@ -223,6 +291,20 @@ theorem nonvacuous :
   · simp [InGrid, InGridCells, effRow, effCol, Facts.MaxColumns, Facts.TotalRows]
   · simp [RowAttrsOK, Facts.TotalRows]
   · simp [Consistent, RefsOK, effRow]
+
+/-- the hypotheses of `load_pure_partial` are satisfiable by a sheet that caching really
+changes (gap row, cells without references, a column gap that is re-densified) -/
+theorem nonvacuous_load :
+    let s : Sheet := [⟨2, false, [⟨0, 0, ['a'], false, false⟩, ⟨4, 2, ['b'], false, true⟩]⟩,
+                      ⟨5, true, [⟨2, 5, ['c'], false, false⟩, ⟨0, 0, [], true, false⟩]⟩]
+    WF s ∧ AllR s ∧ RowAttrsOK s ∧ Consistent 0 s ∧ InGrid 0 s ∧
+    afterLoad s (fun s' => s'.length == 5 && (s'.map (·.cells.length)) == [0, 4, 0, 0, 3]) = true := by
+  refine ⟨?_, ?_, ?_, ?_, ?_, by decide⟩
+  · simp [WF, RowsAsc, ColsAsc, effRow, effCol]
+  · simp [AllR]
+  · simp [RowAttrsOK, Facts.TotalRows]
+  · simp [Consistent, RefsOK, effRow]
+  · simp [InGrid, InGridCells, effRow, effCol, Facts.MaxColumns, Facts.TotalRows]
 
 /-- an `Explicit` (cached-form) sheet satisfying the invariant exists -/
 theorem nonvacuous_explicit :
